@@ -366,7 +366,7 @@ pub fn run(cx: &mut Ctx) {
             cx.replay_outcome(&name, r);
         }
     }
-    let avoid_c18 = YAvoid { compact_collection_return_after_deeper: true, tab_after_dash_before_flow_or_quoted: true, opener_after_space_in_plain: true, block_scalar_on_compact_line: true, ..YAvoid::none() };
+    let avoid_c18 = YAvoid { compact_collection_return_after_deeper: true, opener_after_space_in_plain: true, block_scalar_on_compact_line: true, ..YAvoid::none() };
     let o = opts(cx, avoid_c18);
     cx.check(
         "generated-accepted",
